@@ -2,7 +2,7 @@
 import core
 import ctl_common as cc
 
-NAMES = ['CIRC', 'STREAM', 'NS', 'DESCCHANGED']
+NAMES = ['CIRC', 'STREAM', 'NS', 'DESCCHANGED', 'STREAM_BW', 'CIRC_MINOR']   # incl. names that extend another name
 
 
 def gen_session(rng):
